@@ -40,6 +40,10 @@ AFTER_RESTRICTED = ['/*a\nb*/', ' /*\n*/ ', '\n', '//c\n', '/*1*/ /*2\n*/ /*3*/'
 def element():
     return st.one_of(
         st.sampled_from(IDENTS).map(lambda s: ('id', s)),
+        # identifiers over every BMP character that is an identifier character in any Unicode version >= 3
+        st.tuples(st.sampled_from(gp.STABLE_START), st.lists(st.one_of(
+            st.sampled_from(gp.STABLE_START), st.sampled_from(gp.STABLE_PART), st.sampled_from('aZ09_$')),
+            max_size=3)).map(lambda t: ('id', t[0] + ''.join(t[1]))),
         # every reserved word extended to an identifier (keyword only on exact match), or prefixed
         st.tuples(st.sampled_from(KEYWORDS), st.sampled_from(KW_SUFFIX)).map(lambda t: ('id', t[0] + t[1])),
         st.tuples(st.sampled_from(['x', '_', '$']), st.sampled_from(KEYWORDS)).map(lambda t: ('id', t[0] + t[1])),
